@@ -2577,11 +2577,13 @@ class Signature(object):
     def public_key(self, value):
         if value is None:
             return
-        if isinstance(value, bytes):
+        if isinstance(value, (bytes, str)):
             value = HDKey(value)
         if value.is_private:
             value = value.public()
         self.x, self.y = value.public_point()
+        if not (0 <= self.x < secp256k1_p and 0 <= self.y < secp256k1_p):
+            raise BKeyError('Invalid public key, coordinates must be smaller than the field prime')
 
         if USE_FASTECDSA:
             if not fastecdsa_secp256k1.is_point_on_curve((self.x, self.y)):
